@@ -2,12 +2,26 @@ package props
 
 import (
 	"os"
+	"strings"
 	"testing"
 
 	"verif/harness/internal/ev"
+	"verif/harness/internal/kchild"
 )
 
-func TestMain(m *testing.M) { ev.Main(m) }
+func TestMain(m *testing.M) {
+	code := m.Run()
+	if kchild.Timeouts > 0 {
+		for _, id := range []string{"C08", "C09", "C10", "C11"} {
+			if strings.Contains(os.Getenv("VERIF_CURRENT_ID"), id) {
+				ev.Count(id, "child-timeouts-retried", kchild.Timeouts)
+				ev.Note(id, "last child that timed out: %s", kchild.LastTimeoutDump)
+			}
+		}
+	}
+	ev.Flush()
+	os.Exit(code)
+}
 
 // TestReplay re-runs the case of $VERIF_REPLAY directly, bypassing rapid.
 // All check functions are registered by registerAll.
@@ -45,6 +59,7 @@ func registerAll() {
 	ev.Register("C18", "profile", checkC18)
 	ev.Register("C19", "target", checkC19Target)
 	ev.Register("C19", "transplant", checkC19Transplant)
+	ev.Register("C19", "arch-digest", checkC19ArchDigest)
 	ev.Register("C12", "entry", checkC12Entry)
 	ev.Register("C12", "arch", checkC12Arch)
 	ev.Register("C12", "processes", checkC12Processes)
@@ -53,11 +68,13 @@ func registerAll() {
 	ev.Register("C13", "concurrent", checkC13Concurrent)
 	ev.Register("C13", "text", checkC13Text)
 	ev.Register("C13", "processes", checkC13Processes)
+	ev.Register("C13", "text-processes", checkC13TextProcesses)
 	ev.Register("C14", "parse", checkC14Parse)
 	ev.Register("C14", "config", checkC14Cfg)
 	ev.Register("C05", "program", checkC05)
 	ev.Register("C05", "verifier-differential", checkC05Diff)
 	ev.Register("C07", "arch", checkC07Arch)
+	ev.Register("C07", "size-boundary", checkC07Size)
 	ev.Register("C02", "random", checkC02)
 	ev.Register("C03", "policy-events", checkC03)
 	ev.Register("C04", "policy-events", checkC04)
